@@ -29,7 +29,11 @@ json.dump({'Replace':rep},open(os.path.join(ov,'ov.json'),'w'))
 print('overlay:',list(rep))
 E
 V=/verif
-mkdir -p "$V/.seedlogs"
+mkdir -p "$V/.seedlogs" "$V/.build"
+# one run per check id at a time (several seed runs may be going on in parallel: they share the
+# mutated binary, the evidence file and the replay directory of the check)
+exec 8>"$V/.build/seedcheck-$id.lock"
+flock 8
 log="$V/.seedlogs/$(basename "$(dirname "$patch")")-$id-$tier.log"
 cp "$V/evidence/$id.json" "$ov/evidence.bak" 2>/dev/null
 ls "$V/replays/$id" 2>/dev/null | sort > "$ov/replays.before"
